@@ -136,7 +136,8 @@ theorem conforms_v18_GreaterOrEqual : entryOK ("v17._GreaterOrEqual", Generated.
 
 theorem conforms_v18_GridSample : entryOK ("v17._GridSample", Generated.Ctors.v17.f_grid_sample, Generated.Schemas.v17.s_GridSample_16) = true := Generated.Conforms.v17.conforms_v17_GridSample
 
-theorem conforms_v18_GroupNormalization : entryOK ("v18._GroupNormalization", Generated.Ctors.v18.f_group_normalization, Generated.Schemas.v18.s_GroupNormalization_18) = true := by decide +kernel
+/-- known deviation (findings.d/C11.json): conforms in everything but the absent attribute(s) -/
+theorem conforms_v18_GroupNormalization : entryOKExcept ["@deprecated"] ("v18._GroupNormalization", Generated.Ctors.v18.f_group_normalization, Generated.Schemas.v18.s_GroupNormalization_18) = true := by decide +kernel
 
 theorem conforms_v18_HammingWindow : entryOK ("v17._HammingWindow", Generated.Ctors.v17.f_hamming_window, Generated.Schemas.v17.s_HammingWindow_17) = true := Generated.Conforms.v17.conforms_v17_HammingWindow
 
@@ -441,7 +442,6 @@ def table : List Entry :=
    ("v17._Greater", Generated.Ctors.v17.f_greater, Generated.Schemas.v17.s_Greater_13), 
    ("v17._GreaterOrEqual", Generated.Ctors.v17.f_greater_or_equal, Generated.Schemas.v17.s_GreaterOrEqual_16), 
    ("v17._GridSample", Generated.Ctors.v17.f_grid_sample, Generated.Schemas.v17.s_GridSample_16), 
-   ("v18._GroupNormalization", Generated.Ctors.v18.f_group_normalization, Generated.Schemas.v18.s_GroupNormalization_18), 
    ("v17._HammingWindow", Generated.Ctors.v17.f_hamming_window, Generated.Schemas.v17.s_HammingWindow_17), 
    ("v17._HannWindow", Generated.Ctors.v17.f_hann_window, Generated.Schemas.v17.s_HannWindow_17), 
    ("v17._HardSigmoid", Generated.Ctors.v17.f_hard_sigmoid, Generated.Schemas.v17.s_HardSigmoid_6), 
@@ -626,7 +626,6 @@ theorem table_all : table.all entryOK = true :=
   all_cons conforms_v18_Greater (
   all_cons conforms_v18_GreaterOrEqual (
   all_cons conforms_v18_GridSample (
-  all_cons conforms_v18_GroupNormalization (
   all_cons conforms_v18_HammingWindow (
   all_cons conforms_v18_HannWindow (
   all_cons conforms_v18_HardSigmoid (
@@ -745,13 +744,17 @@ theorem table_all : table.all entryOK = true :=
   all_cons conforms_v18_Unsqueeze (
   all_cons conforms_v18_Where (
   all_cons conforms_v18_Xor (
-  all_nil)))))))))))))))))))))))))))))))))))))))))))))))))))))))))))))))))))))))))))))))))))))))))))))))))))))))))))))))))))))))))))))))))))))))))))))))))))))))))))))))))))))))))))))))))))))))
+  all_nil))))))))))))))))))))))))))))))))))))))))))))))))))))))))))))))))))))))))))))))))))))))))))))))))))))))))))))))))))))))))))))))))))))))))))))))))))))))))))))))))))))))))))))))))))))))
 
 theorem table_conforms : ∀ e ∈ table, entryOK e = true :=
   fun e he => List.all_eq_true.mp table_all e he
 
-def deviating : List Entry :=
+/-- pairs with listed deviations (known findings), each with what is excepted -/
+def deviating : List (List String × Entry) :=
   [
-   ("v17._Constant", Generated.Ctors.v17.f_constant, Generated.Schemas.v17.s_Constant_13)]
+   (["sparse_value"], ("v17._Constant", Generated.Ctors.v17.f_constant, Generated.Schemas.v17.s_Constant_13)), 
+   (["@deprecated"], ("v18._GroupNormalization", Generated.Ctors.v18.f_group_normalization, Generated.Schemas.v18.s_GroupNormalization_18))]
+
+theorem deviating_conforms : ∀ d ∈ deviating, entryOKExcept d.1 d.2 = true := by decide +kernel
 
 end Generated.Conforms.v18
